@@ -52,7 +52,10 @@ def match_known(pid, rec, known):
     return None
 
 
-SIGNATURES = {}
+SIGNATURES = {
+    # the oracle evaluates the finding's predicate on the failing case and tags the line with sig=<name>
+    "oracle_sig": lambda rec, sig: (" sig=%s " % sig["sig"]) in (rec.get("line", "") + " "),
+}
 
 
 def case_text(trace, case_id, upto_op=None):
@@ -208,4 +211,22 @@ def c12(ctx):
     return _hist(ctx, "c12", "commit", HIST_RULE + "; one file image per commit", 240, 16000)
 
 
-PLUGINS = {"C09": c09, "C04": c04, "C07": c07, "C12": c12}
+def c05(ctx):
+    """C05 cursors: Cursor.v (line-for-line model, repaired prev/Last) vs the real cursor on the tree dumped by VerifDumpTree (K);
+    the sorted-list specification on the flattened tree (S). Trees: 0-900 keys, page sizes 1024/4096, nested-bucket entries, read
+    transactions and write transactions with delete runs that empty whole leaves; sequences: all of length `exh` over First/Last/Next/Prev/Seek(9 candidate keys),
+    full forward and backward scans, random walks."""
+    res = Result()
+    res.rule = ("one case = one tree + all its call sequences; distinct by MD5 of the dumped tree; non-trivial if the tree has depth >= 2, an emptied leaf, "
+                "nested-bucket entries, is empty, or comes from a write transaction")
+    with ctx:
+        if ctx.tier == "quick":
+            runs = run_sharded(ctx, "c05", 8, lambda i: ["-seed", str(ctx.seed * 1000 + i), "-n", "40", "-exh", "2", "-rand", "30", "-dir", "{dir}"], 600)
+        else:
+            runs = run_sharded(ctx, "c05", 16, lambda i: ["-seed", str(ctx.seed * 1000 + i), "-n", "320", "-exh", "3", "-rand", "60", "-dir", "{dir}"], ctx.budget_s or 3000)
+        for r in runs:
+            absorb(res, "C05", *r)
+    return res
+
+
+PLUGINS = {"C05": c05, "C09": c09, "C04": c04, "C07": c07, "C12": c12}
